@@ -458,6 +458,10 @@ def c04(pid, tier, seed, selftest=False):
     for s in scenarios[:1] + scenarios[len(scenarios) // 2:len(scenarios) // 2 + 2] + scenarios[-1:]:
         rep.sample(s)
     runs = st.run_and_validate(rep, pid, "sched", scenarios, tpl, seed, nproc=16)
+    if thorough or selftest:
+        # the same predicates at the process boundary: kestrel decrypt under strace
+        import checks_cli
+        checks_cli.process_level_stream(rep, pid, tpl, seed)
     nwrites = sum(1 for r in runs for e in r["events"] if e["ev"] == "write")
     rep.extra["write_events_checked"] = nwrites
     return finish(rep, runs)
@@ -622,6 +626,10 @@ def c11(pid, tier, seed, selftest=False):
     for s in scenarios[:1] + scenarios[-2:]:
         rep.sample(s)
     runs = st.run_and_validate(rep, pid, "big", scenarios, tpl, seed, nproc=len(scenarios))
+    if thorough or selftest:
+        # the same clause at the process boundary: peak RSS of the real binary, large vs small input
+        import checks_cli
+        checks_cli.process_level_rss(rep, pid, tpl, seed, 512 if thorough else 48)
     peak = 0
     for r in runs:
         for e in r["events"]:
